@@ -47,6 +47,7 @@ def rules(ctx):
     c198(ctx)
     c199(ctx)
     c1910(ctx)
+    c1911(ctx)
 
 
 def c199(ctx):
@@ -173,6 +174,42 @@ def c1910(ctx):
                             ok = P.reach(f, P.after(f, h), [h], avoid={p_} | set(P.error_points(f))) is None
             ctx.check(R, f, "one-offset-per-index", ok, "an offset is pushed on every turn of the loop over range.0..=range.1",
                       "search does not push one located offset for every index of the backward-search range (inclusive, unmodified bounds)", pt=p_)
+
+
+def c1911(ctx):
+    R = "C19.11"
+    ctx.declare(R, "a character that does not occur in the text has no symbol: Sigma::char_to_sigma answers Some only from an exact lookup (a map or "
+                   "dense-table get), or -- when it searches the sorted table -- behind an equality test between the element it found and the character; "
+                   "a lower bound alone names the *next* character's symbol, and count / search then answer for another pattern")
+    fs = [f for k, f in ctx.prog.fns.items() if f.crate == "scrunch" and re.search(r"sigma::Sigma::char_to_sigma$", f.skey)]
+    ctx.floor(R, "Sigma::char_to_sigma", len(fs), 1)
+    for f in fs:
+        somes = [(b.idx, i) for b in f.blocks for i, st in enumerate(b.st) if st["s"] == "=" and st["rv"].get("r") == "agg" and st["rv"].get("variant") == "Some"
+                 and (st["rv"].get("adt") or "").endswith("option::Option") and st["lhs"]["l"] == 0]
+        searches = P.call_points(f, r"::partition_point$|::binary_search(_by|_by_key)?$|::position$")
+        for p_ in somes:
+            st = f.blocks[p_[0]].st[p_[1]]
+            srcs, _ = P.value_slice(f, st["rv"]["ops"][0])
+            from_search = [x for x in srcs if x["k"] == "call" and x["pt"] in searches]
+            if not from_search:
+                ctx.ok(R, f, "Some(..) at line %d comes from an exact lookup" % st["sp"][1])
+                continue
+            exact = False
+            for x in from_search:
+                if re.search(r"binary_search", x["callee"]):
+                    # Ok(idx) of a binary search is an exact hit: accept the Ok edge
+                    exact = any(lab == "sw:0" and any(y["k"] == "call" and y["pt"] == x["pt"] for y in ss) for _bb, lab, ss in K.guards(f, p_))
+            for g in K.compare_guards(f, p_):
+                if g["op"] == "Eq" and g["holds"] or g["op"] == "Ne" and not g["holds"]:
+                    sides = [P.origins(f, g["a"]), P.origins(f, g["b"])]
+                    has_t = any(any(y["k"] == "param" and y["i"] == 2 for y in sd) for sd in sides)
+                    has_el = any(any(y["k"] == "call" and re.search(r"::index$|::get$|get_unchecked$", y["callee"]) for y in sd) or
+                                 any(y["k"] == "field" and y["f"] == "sigma_to_char" for y in sd) for sd in sides)
+                    if has_t and has_el:
+                        exact = True
+            ctx.check(R, f, "membership-by-equality", exact, "a searched position is answered only if the element there equals the character",
+                      "Sigma::char_to_sigma answers Some(position) from a search of the sorted table without comparing the element found with the character: "
+                      "an absent character smaller than the largest one gets the symbol of its successor", pt=p_)
 
 
 def builder_params(f):
